@@ -404,5 +404,5 @@ def run(tier: str) -> int:
     rep.assumptions = ["sequences longer than k and start trees beyond the stated families are outside the claim"]
     random.Random(seed()).shuffle(items)
     items.sort(key=lambda it: -sk_size(it[2]))
-    collect(rep, pmap(worker, items, budget_s=420 if tier == "quick" else 3000, chunk=2))
+    collect(rep, pmap(worker, items, budget_s=420 if tier == "quick" else 720, chunk=2))
     return rep.finish(required_reach=["cloned", "inplace"])
